@@ -120,6 +120,9 @@ def oracle(st, models, info):
     return viol
 
 
+oracle.keeps_object = True
+
+
 def run_case(case):
     v = e2models.replay_history(case["n"], case["npt"], case["hist"], oracle)
     for x in v:
